@@ -209,11 +209,15 @@ def m12(F, rep, rule="M12"):
                 if s["k"] != "assign":
                     continue
                 pp = s["p"]["p"]
+                # a counter may also be stepped through `&mut freq.x[i]` handed to a helper: the borrow is the update site
+                if s["r"].get("k") == "ref" and s["r"].get("mut") and any(isinstance(e, dict) and e.get("n") in ("literal_codes", "distance_codes") for e in s["r"]["place"]["p"]):
+                    pp = s["r"]["place"]["p"]
                 fl = [e.get("n") for e in pp if isinstance(e, dict) and "n" in e]
                 ix = [e["i"] for e in pp if isinstance(e, dict) and "i" in e]
                 kx = [e for e in pp if isinstance(e, dict) and "ci" in e]
                 which = "literal_codes" if "literal_codes" in fl else ("distance_codes" if "distance_codes" in fl else None)
-                if which is None or "freq" not in fl and not b.local_ty(s["p"]["l"]).endswith("TokenFrequency"):
+                base_l = s["r"]["place"]["l"] if pp is not s["p"]["p"] else s["p"]["l"]
+                if which is None or "freq" not in fl and not b.local_ty(base_l).endswith("TokenFrequency"):
                     continue
                 if not ix:
                     continue            # constant index (the end-of-block entry of the default histogram)
